@@ -74,7 +74,7 @@ func c19Run(ctx *core.Ctx) {
 			emit(c19Case{Kind: "fuzz", Seed: uint64(i), State: c19States[i%len(c19States)]})
 		}
 		for nbad := 3; nbad <= 6; nbad++ {
-			for _, mix := range []string{"consecutive", "interleaved", "afterenvelope"} {
+			for _, mix := range []string{"consecutive", "interleaved", "afterenvelope", "rset-between", "hello-between", "message-between"} {
 				for _, bad := range []string{"XXXX", "AB", "ABCDE", "", "FOOBAR x"} {
 					for _, mode := range []srvMode{modeSMTP, modeLMTPRcpt} {
 						emit(c19Case{Kind: "flood", NBad: nbad, Mix: mix, Line: []byte(bad), LineQ: bad, Mode: mode})
@@ -421,6 +421,20 @@ func c19Flood(ctx *core.Ctx, c c19Case) {
 		for i := 0; i < c.NBad; i++ {
 			script = append(script, bad, "NOOP")
 		}
+	case "rset-between", "hello-between", "message-between":
+		// commands that end a transaction (and might wrongly forgive errors) between the invalid ones
+		script = append(script, c.Mode.hello())
+		for i := 0; i < c.NBad; i++ {
+			script = append(script, bad)
+			switch c.Mix {
+			case "rset-between":
+				script = append(script, "RSET")
+			case "hello-between":
+				script = append(script, c.Mode.hello())
+			default:
+				script = append(script, "MAIL FROM:<s@x.test>", "RCPT TO:<r@x.test>", "BDAT 2 LAST\r\nab")
+			}
+		}
 	case "afterenvelope":
 		script = append(script, c.Mode.hello(), "MAIL FROM:<s@x.test>", bad, "RCPT TO:<r@x.test>")
 		for i := 1; i < c.NBad; i++ {
@@ -437,7 +451,13 @@ func c19Flood(ctx *core.Ctx, c c19Case) {
 		if err != nil {
 			break
 		}
-		p.SendStr(s + "\r\n")
+		if strings.HasPrefix(s, "BDAT") {
+			i := strings.Index(s, "\r\n") + 2
+			p.SendStr(s[:i])
+			p.SendStr(s[i:])
+		} else {
+			p.SendStr(s + "\r\n")
+		}
 		var rs []wire.Reply
 		rs, err = p.ReadUntilStall()
 		all = append(all, rs...)
